@@ -7,7 +7,7 @@ use crate::{
         },
         format::format_time_part,
         offset::{add_offset_to_nanos, remove_offset_from_nanos},
-        parse::{parse_format_string, parse_time_part, ParseUnit, ParsedTime, Period},
+        parse::{parse_format_string, parse_time_part, remove_part, ParseUnit, ParsedTime, Period},
         time::{
             convert::{
                 days_nanos_to_hours, days_nanos_to_micros, days_nanos_to_millis,
@@ -204,13 +204,15 @@ impl Time {
         for part in parts {
             // Escaped apostrophes
             if part.starts_with('\u{0000}') {
-                string.replace_range(0..part.len(), "");
+                remove_part(part.chars().count(), &mut string)?;
                 continue;
             }
 
             // Escaped parts
             if part.starts_with('\'') {
-                string.replace_range(0..part.len() - if part.ends_with('\'') { 2 } else { 1 }, "");
+                let text = part.strip_prefix('\'').unwrap_or(&part);
+                let text = text.strip_suffix('\'').unwrap_or(text);
+                remove_part(text.chars().count(), &mut string)?;
                 continue;
             }
 
